@@ -18,7 +18,8 @@ EXPLANATION = (
     "errno classification table equals the reference; (S5) every read of a request body can span several receives "
     "(it is performed by a looping receiver), and a short body is an error; (S6) reply receivers size the variable part "
     "from the reply's own header."
-    " Also: (S2) descriptors are kept only under a zero test of the accumulator of received byte counts; (S3) the completeness comparison covers every fixed-size iovec; (S7) no caller drops a receive's byte count; (S8) a zero-byte receive leaves every receive loop; (S9) all tests of a size against MAX_MSG_SIZE agree on the inclusive bound; (S10) C01/W6; (S11) a clean Disconnected is produced only by the first receive of an endpoint receiver under 0 bytes.")
+    " Also: (S2) descriptors are kept only under a zero test of the accumulator of received byte counts; (S3) the completeness comparison covers every fixed-size iovec; (S7) no caller drops a receive's byte count; (S8) a zero-byte receive leaves every receive loop; (S9) all tests of a size against MAX_MSG_SIZE agree on the inclusive bound; (S10) C01/W6; (S11) a clean Disconnected is produced only by the first receive of an endpoint receiver under 0 bytes."
+    ' Round 4/5: (S5) header, body, payload and data receivers all sit on the looping receiver; (S2) recv_data stores the next segment at the running total; (S3) every validator a receiver applies has accepted on each Ok path; (S12) C05/V5.')
 NOT_DECIDED = ("The iovec offset helper as a numeric function, real partial writes/reads, delays, 'without blocking forever' as a timing claim.")
 
 RAW_SEND = "send_with_fds"
@@ -90,6 +91,23 @@ def loop_shape(fb, chk, rule, f, inner_name, counter_desc):
     chk.check(ok, rule, f.name + ":offset", "next chunk starts at the running byte count (0, then += bytes transferred)",
               "the offset passed to the iovec helper is %s, not the running count of bytes transferred"
               % (show(m.sym.arg_terms(offs[0][0])[1])[:80] if offs else None), f.loc())
+    # the loop runs while ANY byte is outstanding: the guard at the transfer is `total - count > 0` (or `!= 0`, or
+    # `count < total`), not a larger remainder
+    g_ok = False
+    for a in m.atoms_at(bb):
+        if a[0] != "cmp":
+            continue
+        l_, r_ = a[2], a[3]
+        if a[1] in ("Gt", "Ne") and l_[0] == "bin" and l_[1] == "Sub" and r_[0] == "const" and r_[1] == 0 and \
+                any(server.same_call(s_, call) for s_ in subterms(l_[3]) if s_[0] == "call"):
+            g_ok = True
+        if a[1] == "Ge" and l_[0] == "bin" and l_[1] == "Sub" and r_[0] == "const" and r_[1] == 1:
+            g_ok = True
+        if a[1] == "Lt" and any(server.same_call(s_, call) for s_ in subterms(l_) if s_[0] == "call") and r_[0] != "const":
+            g_ok = True
+    chk.check(g_ok, rule, f.name + ":guard", "the loop continues while bytes are outstanding (remaining > 0)",
+              "%s: the transfer loop's guard is not `total - transferred > 0`: the loop stops with bytes of the message still outstanding "
+              "(e.g. when the last byte arrives in a segment of its own)" % f.short, f.loc(t["line"]))
     # zero-byte transfer terminates: a block with facts ok(call) and payload in {0} that cannot reach the call again
     zero_exit = False
     retry_ok = None
@@ -422,7 +440,37 @@ def _accumulates(m, term, call):
     return False
 
 
+def recv_data_offset(fb, chk):
+    """Endpoint::recv_data reassembles a body in its own loop: the position the next segment is stored at (the slice start
+    and the remaining length of the iovec) is the running total of the bytes received so far (0, then += count)."""
+    ep = endpoint_fns(fb)
+    f = ep.get("recv_data")
+    if f is None:
+        return
+    from .c05 import iovec_extent
+    from vlint.must import Must
+    m = Must(f, fb)     # a fresh evaluation: the loop-carried offset must not be read through another rule's partial memo
+    rs = [(bb, t, c) for bb, t, c in sites(f, name=set(RECV_PRIMS))]
+    if len(rs) != 1:
+        return
+    call = m.sym.call_at(rs[0][0])
+    for bi, b in enumerate(f.blocks):
+        if b["cleanup"]:
+            continue
+        for st in b["stmts"]:
+            if st["k"] == "assign" and st["rv"]["k"] == "agg" and st["rv"].get("ak") == "adt" and st["rv"]["adt"].endswith("iovec"):
+                v = m.sym.rvalue(st["rv"])
+                ext = iovec_extent(dict(v[3]).get("iov_base"))
+                off = ext[1][1] if ext and ext[0] in ("minus", "lenminus") else None
+                ok = off is not None and _accumulates(m, off, call)
+                chk.check(ok, "S2", "recv_data:offset", "next segment stored at the running byte count (0, then += bytes received)",
+                          "Endpoint::recv_data stores the next segment at `%s`, which is not the running total of the bytes received so far: "
+                          "a body arriving in several segments is overwritten / never completes" % (show(off)[:60] if off else None),
+                          f.loc(st.get("line")))
+
+
 def loops(fb, chk):
+    recv_data_offset(fb, chk)
     ep = endpoint_fns(fb)
     f = ep.get("send_iovec_all")
     if f is None:
@@ -547,6 +595,10 @@ def s3(fb, chk):
             full = any(a[0] == "cmp" and a[1] in ("Eq", "Ge") and "recv_into_iovec_all" in show(a[2])
                        and len([s_ for s_ in subterms(a[3]) if s_[0] == "call" and s_[1] == "size_of"]) >= max(1, nfixed) for a in o.atoms)
             valid = any(a[0] == "true" and a[1][0] == "call" and a[1][1] == "is_valid" for a in o.atoms)
+            # every validator the receiver applies (header, body) has accepted: none of them is merely "one of"
+            nval = len({a[1] for a in o.atoms if a[0] == "true" and a[1][0] == "call" and a[1][1] == "is_valid"})
+            if nval < len(sites(g, name="is_valid")):
+                valid = False
             if not (full and valid):
                 good = False
         partial = any(o.ret is not None and "PartialMessage" in show(o.ret) for o in outs)
